@@ -316,6 +316,10 @@ func C07(r *Run) {
 				m["hid"] = map[string]any{"$output": false, "x": "$required", "y": g.Scalar()}
 			}
 			if g.P(0.15) {
+				// a selected subtree below an excluded one is emitted: its markers count
+				m["hid2"] = map[string]any{"$output": false, "in": map[string]any{"$output": true, "x": g.Pick(g.Strs), "y": g.Scalar()}}
+			}
+			if g.P(0.15) {
 				m["enc"] = map[string]any{"$encode": "join:,", "$value": []any{"a", g.Scalar()}}
 			}
 		}
